@@ -107,6 +107,10 @@ func (v DenseInt64Vector) ReverseOrder() {
   }
 }
 func (v DenseInt64Vector) Slice(i, j int) Vector {
+  // do not expose elements beyond the end of a sub-slice
+  if j > len(v) {
+    panic("index out of bounds")
+  }
   return v[i:j]
 }
 func (v DenseInt64Vector) Swap(i, j int) {
@@ -160,6 +164,9 @@ func (v DenseInt64Vector) ConstAt(i int) ConstScalar {
   return Int64{&v[i]}
 }
 func (v DenseInt64Vector) ConstSlice(i, j int) ConstVector {
+  if j > len(v) {
+    panic("index out of bounds")
+  }
   return v[i:j]
 }
 func (v DenseInt64Vector) AsConstMatrix(n, m int) ConstMatrix {
